@@ -276,6 +276,35 @@ def getitem(prog: Program, rep: Report, MW: ClassInfo):
                        nontrivial=False)
 
 
+def fuse_lists_append_only(prog: Program, rep: Report, clause: str):
+    """ModeWrapper.__init__: fused_items / fused_to_idxs are filled by appends only (shared by C01 and C11)."""
+    MW = prog.cls("ModeWrapper")
+    fi = MW.methods.get("__init__")
+    if fi is None:
+        return
+    fa = fa_of(prog, fi)
+    apps = {"fused_to_idxs": [], "fused_items": []}
+    rep.rule("G5.fuse-bookkeeping", rep.rules.get("G5.fuse-bookkeeping", "ModeWrapper.__init__: the position table and the loader-name "
+             "list are filled by paired appends in item order and never re-ordered or re-bound"))
+    # the two lists grow by appends only: un-fusing writes the loader results in list order and the last writer of a position wins
+    # (an item that is both requested on its own and part of a fused group must be overwritten by the fused result), so neither
+    # list may be re-ordered or re-bound after the loop that fills them
+    reorder = []
+    for n_, var, val in fa.stores(f"{fa.self_name}."):
+        a_ = var.split(".", 1)[1]
+        if a_ in apps and not (isinstance(val, ast.List) and not val.elts):
+            reorder.append((fa.line(n_), f"self.{a_} is re-bound"))
+    for n_, c_ in fa.calls():
+        if isinstance(c_.func, ast.Attribute) and c_.func.attr in ("sort", "reverse", "insert", "pop", "remove", "clear", "extend"):
+            r_ = fa.referent(c_.func.value, n_)
+            if isinstance(r_, ast.Attribute) and _n(r_.value) == fa.self_name and r_.attr in apps:
+                reorder.append((fa.line(n_), f"self.{r_.attr}.{c_.func.attr}(...)"))
+    rep.decide(not reorder, "G5.fuse-bookkeeping", fi, "append-only", "position table and loader-name list are only appended to, in "
+               "item order", "; ".join(f"{w} (line {ln})" for ln, w in reorder[:3]) + ": the order in which loader results are "
+               "written back changes - an item requested on its own and as part of a fused group is no longer overwritten by the "
+               "jointly loaded value", clause=clause)
+
+
 def constructor(prog: Program, rep: Report, MW: ClassInfo):
     rep.rule("G5.fuse-bookkeeping", "ModeWrapper.__init__: the positions of a fused group are collected by iterating the declared "
              "group in declaration order (the order in which the fused loader returns its components), one position per "
@@ -308,6 +337,7 @@ def constructor(prog: Program, rep: Report, MW: ClassInfo):
     rep.decide(ok, "G5.fuse-bookkeeping", fi, "paired-appends", "each position-table append has its loader-name append in the "
                "same block", "an append to fused_to_idxs is not paired with exactly one append to fused_items under the same "
                "conditions: loader results and position entries shift against each other", clause="C01.3")
+    fuse_lists_append_only(prog, rep, clause="C01.3")
     # positions collected over the declared group, in declared order
     fused_app = [(n, c) for n, c in apps["fused_to_idxs"] if c.args and isinstance(c.args[0], ast.Name)
                  and any(isinstance(v, (ast.List, ast.ListComp)) for m_, var, v in fa.stores()
